@@ -42,6 +42,32 @@ class VariantAtom(Atom):
         return None
 
 
+def _flag_consts_followed(body, bb, tracked):
+    """The bool switch at `bb` tests a user flag whose constant values this explorer follows path by path (a tracked local, every constant alternative of its
+    origin being a direct `flag = const` assignment): on a path where no constant is known the flag holds its computed value, so `phi(const | X)` may be read as X."""
+    t = body.blocks[bb]['t']
+    if t.get('onty') != 'bool' or t['on'].get('k') not in ('cp', 'mv') or t['on']['pl'].get('p'):
+        return False
+    l = t['on']['pl']['l']
+    for st in body.blocks[bb]['s']:     # `_t = copy flag; switchInt(move _t)`
+        rv = st.get('rv')
+        if rv and not st['pl'].get('p') and st['pl']['l'] == l and rv['k'] == 'use' and rv['a'].get('k') in ('cp', 'mv') and not rv['a']['pl'].get('p'):
+            l = rv['a']['pl']['l']
+    if l not in tracked:
+        return False
+    e = Origin(body).of_local(l)
+    if e[0] != 'phi':
+        return False
+    n_const_alts = sum(1 for a in e[1] if a[0] == 'const' and a[2] in (0, 1))
+    direct = set()
+    for blk in body.blocks:
+        for st in blk['s']:
+            rv = st.get('rv')
+            if rv and not st['pl'].get('p') and st['pl']['l'] == l and rv['k'] == 'use' and rv['a'].get('k') == 'c' and rv['a'].get('ty') == 'bool':
+                direct.add(rv['a'].get('int'))
+    return n_const_alts > 0 and n_const_alts == len(direct)
+
+
 def explore(body, atoms, start=0, start_assign=None, max_states=200000, mark_edges=None, mark_blocks=None, stop_blocks=None):
     """Returns (terminals, seen_atoms): terminals = list of (return_bb, passed_err_block, assignment dict, path);
     seen_atoms = {atom name: set(switch blocks where it was recognised)}.
@@ -128,7 +154,7 @@ def explore(body, atoms, start=0, start_assign=None, max_states=200000, mark_edg
         succs = view.succ(bb)
         if t['k'] == 'switch' and bb not in view.red:
             if bb not in preds_cache:
-                preds_cache[bb] = switch_edge_predicates(body, bb, origin)
+                preds_cache[bb] = switch_edge_predicates(body, bb, origin, drop_const_phi=_flag_consts_followed(body, bb, tracked))
             ad = dict(assign)
             # a switch on a local whose boolean value is known on this path takes one edge only
             on_ = t['on']
